@@ -130,6 +130,10 @@ func checkC03(c *Ctx, r *Report) {
 		o.NonTrivial = true
 	}
 	_ = w
+
+	if tierThorough {
+		witnessGateFirst(c, r, "C03.a")
+	}
 }
 
 // checkGateFirst implements C03.a on one engine.
